@@ -7,6 +7,10 @@
             | PU:int | PO:int | SG:size | SS:hexes | SD:hex:hex:maxlen | SM:hex
             | AN:esz:vals | AG:val:idxhex:esz | AS:val:idxhex:vals:esz | AL:val | NW | SR
             | TG:val:idxhex:esz | TS:val:idxhex:vals:esz      (VM only: the trait methods array_get_elem / array_set_elem)
+            | UC:vals:ty | UR:vals:ty                         (usersum_clone / usersum_release of the value `vals` with type
+                                                               number ty of the case's type table; not part of the contract
+                                                               language: answered '-' by spec)
+     header may carry  Y=ty~ty~..   the type table:  ty := N<k> | B(ty) | A<name> | S<name>(var/var/..) | T(ty/ty/..)   var := - | ty
      vals  := val (',' val)* | ''        hexes := hex (',' hex)* | ''
 
    answer := '#' id ' spec=' res* '|vm=' res* '|wasm=' res* '|vmst=' words '@' pos '|wast=' words '@' pos
@@ -78,6 +82,40 @@ let parse_vals s = List.map parse_val (split ',' s)
 let parse_hexes s = List.map n_of_hex (split ',' s)
 
 type item = Op of op | TG of val0 * n * n | TS of val0 * n * val0 list * n
+          | UC of val0 list * n | UR of val0 list * n
+
+(* types:  N<k> | B(ty) | A<name> | S<name>(var/var/..) | T(ty/ty/..) *)
+let parse_sty (s : string) : sty =
+  let pos = ref 0 in
+  let len = String.length s in
+  let peek () = if !pos < len then s.[!pos] else '\000' in
+  let eat c = if peek () = c then incr pos else raise (Bad (Printf.sprintf "type: expected %c at %d in %s" c !pos s)) in
+  let num () =
+    let st = !pos in
+    while peek () >= '0' && peek () <= '9' do incr pos done;
+    if st = !pos then raise (Bad ("type: number expected in " ^ s));
+    n_of_int (int_of_string (String.sub s st (!pos - st))) in
+  let rec ty () =
+    let c = peek () in
+    incr pos;
+    match c with
+    | 'N' -> TyNum (num ())
+    | 'A' -> TyAlias (num ())
+    | 'B' -> eat '('; let t = ty () in eat ')'; TyBoxed t
+    | 'S' ->
+        let name = num () in
+        eat '(';
+        let var () = if peek () = '-' then (incr pos; None) else Some (ty ()) in
+        let rec go acc = let v = var () in if peek () = '/' then (incr pos; go (v :: acc)) else List.rev (v :: acc) in
+        let l = if peek () = ')' then [] else go [] in
+        eat ')'; TySum (name, l)
+    | 'T' ->
+        eat '(';
+        let rec go acc = let t = ty () in if peek () = '/' then (incr pos; go (t :: acc)) else List.rev (t :: acc) in
+        let l = if peek () = ')' then [] else go [] in
+        eat ')'; TyTuple l
+    | _ -> raise (Bad ("type: bad character in " ^ s)) in
+  ty ()
 
 let parse_op (s : string) : item =
   match String.split_on_char ':' s with
@@ -101,6 +139,8 @@ let parse_op (s : string) : item =
   | [ "SR" ] -> Op OSamplerate
   | [ "TG"; a; idx; esz ] -> TG (parse_val a, n_of_hex idx, n_of_int (int_of_string esz))
   | [ "TS"; a; idx; vs; esz ] -> TS (parse_val a, n_of_hex idx, parse_vals vs, n_of_int (int_of_string esz))
+  | [ "UC"; vs; ty ] -> UC (parse_vals vs, n_of_int (int_of_string ty))
+  | [ "UR"; vs; ty ] -> UR (parse_vals vs, n_of_int (int_of_string ty))
   | _ -> raise (Bad ("bad operation " ^ s))
 
 let show_val = function
@@ -142,7 +182,12 @@ let run_case (id : int) (line : string) : string =
         let size = n_of_int (int_of_string (kv s "S")) in
         let now = n_of_int (int_of_string (kv nw "N")) in
         let srw = n_of_hex (kv sr "R") in
-        let items = List.map parse_op (List.filter (fun x -> x <> "" && not (String.length x > 2 && String.sub x 0 2 = "M=")) ops) in
+        let is_hdr x = String.length x > 2 && (String.sub x 0 2 = "M=" || String.sub x 0 2 = "Y=") in
+        let tt = List.concat_map (fun x ->
+          if String.length x > 2 && String.sub x 0 2 = "Y="
+          then List.map parse_sty (List.filter (fun y -> y <> "") (String.split_on_char '~' (String.sub x 2 (String.length x - 2))))
+          else []) ops in
+        let items = List.map parse_op (List.filter (fun x -> x <> "" && not (is_hdr x)) ops) in
         (* spec *)
         let sp = ref (spec_init size now srw) and sdead = ref false and sout = ref [] in
         let pv = Buffer.create 64 and pw = Buffer.create 64 in
@@ -172,6 +217,19 @@ let run_case (id : int) (line : string) : string =
                if not !vdead then begin
                  let r = vm_prim_array_get !vm.v_arrs (resolve !vt a) idx esz in
                  vout := show_ires r :: !vout; if ires_fault r then vdead := true end
+           | UC (vs, ty) | UR (vs, ty) ->
+               let is_clone = (match it with UC _ -> true | _ -> false) in
+               if not !sdead then (sout := "-" :: !sout; Buffer.add_char pv '-'; Buffer.add_char pw '-');
+               if not !vdead then begin
+                 let value = List.map (resolve !vt) vs in
+                 let size = n_of_int (List.length value) in
+                 let (v', r) = if is_clone then vm_usersum_clone tt !vm value size ty else vm_usersum_release tt !vm value size ty in
+                 vm := v'; vout := show_ires r :: !vout; if ires_fault r then vdead := true end;
+               if not !wdead then begin
+                 let value = List.map (resolve !wt) vs in
+                 let size = n_of_int (List.length value) in
+                 let (w', r) = if is_clone then wasm_usersum_clone !wa value size ty else wasm_usersum_release !wa value size ty in
+                 wa := w'; wout := show_ires r :: !wout; if ires_fault r then wdead := true end
            | TS (a, idx, src, esz) ->
                if not !sdead then (sout := "-" :: !sout; Buffer.add_char pv '-'; Buffer.add_char pw '-');
                if not !wdead then wout := "-" :: !wout;
